@@ -76,6 +76,11 @@ pub trait System: Sync {
         _out: &mut Out,
     ) {
     }
+    /// false when `on_state` does nothing: the explorer then does not rebuild the
+    /// state just to call it (matters on large screens, where a replay is expensive)
+    fn has_state_hook(&self) -> bool {
+        true
+    }
 }
 
 #[derive(Clone, Debug)]
@@ -388,7 +393,7 @@ impl<'a, S: System> Bfs<'a, S> {
         watch_begin(|| hist_desc(&self.cfg, self.alphabet, h));
         watch_note("(state hook)");
         // state hook
-        {
+        if self.sys.has_state_hook() {
             let mut out = Out::default();
             let res = guarded(|| {
                 let mut st = self.replay(h);
@@ -408,6 +413,9 @@ impl<'a, S: System> Bfs<'a, S> {
         }
         if expand {
             for (i, op) in self.alphabet.iter().enumerate() {
+                if !op.enabled_at(h.len()) {
+                    continue;
+                }
                 let mut out = Out::default();
                 watch_note(&op.text);
                 let res = guarded(|| {
